@@ -1,7 +1,113 @@
-// Package simterm replaces internal/term in the simulated gxz.
+// Package simterm replaces internal/term in the simulated gxz - but not the
+// code of internal/term: the unmodified IsTerminal of the repository (Real)
+// is asked about a real kernel object of the kind the scenario puts behind the
+// simulated standard output (a pipe, /dev/null, a regular file, a pseudo
+// terminal). Only the mapping from the simulated descriptor to that object is
+// simulated.
 package simterm
 
-import "verif/sim/simos"
+import (
+	"os"
+	"sync"
+	"syscall"
+	"unsafe"
 
-// IsTerminal reports whether the simulated stdout is a terminal.
-func IsTerminal(fd uintptr) bool { return simos.IsTTY(fd) }
+	"verif/sim/simos"
+)
+
+// Real is the repository's term.IsTerminal, installed by the entry file of the
+// scratch copy. Without it the scenario's kind alone decides.
+var Real func(fd uintptr) bool
+
+var (
+	mu    sync.Mutex
+	files = map[string]*os.File{}
+)
+
+// object returns a real open file of the given kind (created once per process).
+func object(kind string) *os.File {
+	mu.Lock()
+	defer mu.Unlock()
+	if f := files[kind]; f != nil {
+		return f
+	}
+	var f *os.File
+	switch kind {
+	case "devnull":
+		f, _ = os.OpenFile(os.DevNull, os.O_WRONLY, 0)
+	case "file":
+		f, _ = os.CreateTemp("", "verif-stdout-")
+		if f != nil {
+			os.Remove(f.Name())
+		}
+	case "tty":
+		f = openPTY()
+	default: // pipe
+		_, f, _ = os.Pipe()
+	}
+	files[kind] = f
+	return f
+}
+
+// openPTY opens the slave side of a fresh pseudo terminal.
+func openPTY() *os.File {
+	m, err := os.OpenFile("/dev/ptmx", os.O_RDWR, 0)
+	if err != nil {
+		return nil
+	}
+	var unlock int32
+	if _, _, e := syscall.Syscall(syscall.SYS_IOCTL, m.Fd(), syscall.TIOCSPTLCK, uintptr(unsafe.Pointer(&unlock))); e != 0 {
+		return nil
+	}
+	var n uint32
+	if _, _, e := syscall.Syscall(syscall.SYS_IOCTL, m.Fd(), syscall.TIOCGPTN, uintptr(unsafe.Pointer(&n))); e != 0 {
+		return nil
+	}
+	s, err := os.OpenFile("/dev/pts/"+itoa(int(n)), os.O_RDWR|syscall.O_NOCTTY, 0)
+	if err != nil {
+		return nil
+	}
+	files["tty-master"] = m // keep the master open
+	return s
+}
+
+func itoa(n int) string {
+	if n == 0 {
+		return "0"
+	}
+	s := ""
+	for ; n > 0; n /= 10 {
+		s = string(rune('0'+n%10)) + s
+	}
+	return s
+}
+
+// IsTerminal answers for a descriptor of the simulated process.
+func IsTerminal(fd uintptr) bool {
+	kind := simos.StdKind(fd)
+	if Real != nil {
+		if f := object(kind); f != nil {
+			return Real(f.Fd())
+		}
+	}
+	return kind == "tty"
+}
+
+// SelfTest checks the real code against the real objects: only the pseudo
+// terminal is a terminal. It returns "" or what is wrong.
+func SelfTest() string {
+	if Real == nil {
+		return "the repository's term.IsTerminal is not installed"
+	}
+	for _, k := range []string{"pipe", "devnull", "file"} {
+		if f := object(k); f == nil {
+			return "cannot create a " + k
+		} else if Real(f.Fd()) {
+			return "term.IsTerminal says a " + k + " is a terminal"
+		}
+	}
+	if f := object("tty"); f != nil && !Real(f.Fd()) {
+		return "term.IsTerminal says a pseudo terminal is no terminal"
+	}
+	return ""
+}
